@@ -244,6 +244,37 @@ func systematic() []*Prog {
 	add("multi-items", end(sUse("x", 0)), begin(aUse("x", 0)))
 	add("multi-items", Item{Kind: "action", PatVar: "x"}, begin(aUse("x", 0)))
 	add("multi-items", Item{Kind: "action", PatVar: "p", Body: []*Stmt{aUse("x", 0)}}, end(call("f", av("x"))), fn("f", A, lUse("a", 0)))
+	// executable: two or more array parameters that no caller supplies (local arrays): each is a
+	// fresh array of its own; arrays the caller does pass are the caller's
+	{
+		aw := func(v, tag string) *Stmt { return &Stmt{Kind: "a", V: v, Form: 0, Tag: tag} }
+		ob := func(v string) *Stmt { return &Stmt{Kind: "o", V: v} }
+		in := func(v, tag string) *Stmt { return &Stmt{Kind: "m", V: v, Tag: tag} }
+		fi := func(v, tag string) *Stmt { return &Stmt{Kind: "f", V: v, Tag: tag} }
+		ln := func(v string) *Stmt { return &Stmt{Kind: "l", V: v, W: "L_", Form: 0} }
+		AB, EAB, ABC := []string{"a", "b"}, []string{"e", "a", "b"}, []string{"a", "b", "c"}
+		ex := func(fam string, items ...Item) {
+			p := &Prog{Family: "exec-" + fam, Items: items, Exec: true}
+			addDump(p)
+			ps = append(ps, p)
+		}
+		ex("two-local-arrays", fn("f", AB, aw("a", "A"), aw("b", "B"), ob("a"), ob("b")), begin(call("f"), call("f")))
+		ex("two-local-arrays-membership", fn("f", AB, aw("a", "A"), in("b", "x"), in("a", "y"), ln("b"), ln("a")), begin(call("f")))
+		ex("two-local-arrays-forin", fn("f", AB, aw("b", "B"), fi("a", "x"), fi("b", "y"), aw("a", "A"), fi("a", "z")), begin(call("f")))
+		ex("three-local-arrays", fn("f", ABC, aw("a", "A"), aw("b", "B"), aw("c", "C"), ob("a"), ob("b"), ob("c"), ln("c")), begin(call("f")))
+		ex("local-arrays-forwarded", fn("f", AB, call("g", av("a"), av("b")), ob("a"), ob("b")),
+			fn("g", []string{"x", "y"}, aw("x", "X"), aw("y", "Y"), in("y", "m")), begin(call("f")))
+		ex("local-arrays-forwarded-swapped", fn("f", AB, call("g", av("b"), av("a")), ob("a"), ob("b"), aw("a", "A"), call("g", av("a"), av("b")), ob("a"), ob("b")),
+			fn("g", []string{"x", "y"}, aw("x", "X"), ob("y")), begin(call("f")))
+		ex("local-arrays-recursion", fn("f", AB, aw("a", "A"), call("f"), aw("b", "B"), ob("a"), ob("b"), ln("a")), begin(call("f")))
+		ex("one-passed-two-local", fn("f", EAB, aw("e", "E"), aw("a", "A"), aw("b", "B"), ob("e"), ob("a"), ob("b")),
+			begin(call("f"), call("f", av("E")), call("f", av("E")), ob("E")))
+		ex("passed-empty-vs-missing", fn("f", EAB, in("e", "e"), aw("a", "A"), in("b", "b"), aw("b", "B"), in("e", "f"), ob("a")),
+			begin(call("f"), call("f", av("E")), ln("E")))
+		ex("local-array-and-local-scalar", fn("f", ABC, aw("a", "A"), sUse("b", 0), aw("c", "C"), ob("a"), ob("c"), ln("b")), begin(call("f"), call("f")))
+		ex("locals-in-two-functions", fn("f", AB, aw("a", "A"), call("g"), aw("b", "B"), ob("a"), ob("b")),
+			fn("g", AB, aw("b", "Q"), aw("a", "P"), ob("b"), ob("a")), begin(call("f"), call("g")))
+	}
 	// deep chains around the cut-off of 100 extra passes
 	for _, n := range []int{30, 60, 80, 99, 100, 101, 102, 105, 130} {
 		for _, rev := range []bool{false, true} {
@@ -367,6 +398,9 @@ func (g *rgen) body(params []string, maxStmts int, exec bool) []*Stmt {
 		switch {
 		case k < 10:
 			b = append(b, g.callStmt(params, 0))
+		case k < 13 && exec && g.r.Intn(2) == 0:
+			// observations of an array: element read, membership, for-in
+			b = append(b, &Stmt{Kind: g.r.Pick([]string{"o", "o", "m", "f"}), V: v, Tag: tag})
 		case k < 13:
 			form := 0
 			if !exec {
@@ -415,6 +449,11 @@ func randomProg(r *hx.Rand, maxF int, hostile, exec bool) *Prog {
 		p.Natives = g.nats
 	}
 	nf := r.Intn(maxF + 1)
+	locals := exec && r.Intn(2) == 0
+	if locals {
+		p.Family = "random-exec-locals"
+		nf = 1 + r.Intn(maxF)
+	}
 	params := make([][]string, nf)
 	for i := 0; i < nf; i++ {
 		name := fmt.Sprintf("f%d", i)
@@ -435,6 +474,12 @@ func randomProg(r *hx.Rand, maxF int, hostile, exec bool) *Prog {
 			}
 		}
 		g.nparam[name] = len(params[i])
+		if exec && locals {
+			// 2-3 further parameters that no caller supplies: local variables
+			for _, q := range []string{"la", "lb", "lc"}[:2+r.Intn(2)] {
+				params[i] = append(params[i], q)
+			}
+		}
 	}
 	for i := 0; i < nf; i++ {
 		p.Items = append(p.Items, fn(g.fnames[i], params[i], g.body(params[i], 4, exec)...))
